@@ -4,24 +4,27 @@ from vlib import Job
 
 LEVEL = ('decode_text() - the decoder of the text-prefix and line-folding protocols and of line terminators inside text fields - is compared, for ALL '
          'texts of at most MAXD code units (every 16-bit value per unit) and both settings of the decoding options, with a reference decoder written from the '
-         'CIF 2.0 specification; out-of-bounds writes to the output buffer are obligations of the same run. Bounded: complete unwinding.')
+         'CIF 2.0 specification; out-of-bounds writes to the output buffer are obligations of the same run. Bounded: complete unwinding, MAXD = 6 quick / 8 thorough.')
 UNDECIDED = ['texts longer than the bound', 'decoding with only one of the two protocols enabled (non-default option combinations)',
              'scanner lexemes, parse_value coercions, list / table structure: not under contract',
              'that the stored CIF equals the denotation of the token stream (SQLite)']
 
 
-def jobs():
-    return [
-        Job('decode_text_bounded', 'parser_decode_h.c', entry='harness_decode_text', tus=['parser.c'], functions=['decode_text'], plain=True, no_loop_contracts=True,
-            defines={'MAXD': 3}, thorough_defines={'MAXD': 5}, unwind=6,
+def jobs(tier='quick'):
+    out = []
+    top = 6 if tier == 'quick' else 8
+    for n in range(1, top + 1):
+        out.append(Job('decode_text_len%d' % n, 'parser_decode_h.c', entry='harness_decode_text', tus=['parser.c'], functions=['decode_text'], plain=True, no_loop_contracts=True,
+            defines={'MAXD': n, 'FIXN': n}, unwind=n + 3, text_ui=True,
             unwindset=['harness_decode_text.1:170', 'harness_decode_text.2:170', 'harness_decode_text.3:170', 'harness_decode_text.4:170'],
-            bounded='all texts of 1..MAXD (3 quick / 5 thorough) code units, protocols both enabled or both disabled; every loop unwound completely (unwinding assertions on; 170 for the constant table-initialisation loops of INIT_V2_SCANNER, 7 elsewhere)',
-            reach=['decoded-shorter', 'verbatim'], min_obligations=30, timeout=1800, mem_gb=44, text_ui=True,
+            bounded='all texts of exactly %d code units (every 16-bit value per unit), protocols both enabled or both disabled; every loop unwound completely '
+                    '(unwinding assertions on). One job per length: the length is concrete because decode_text allocates a buffer of that size' % n,
+            reach=['decoded-shorter', 'verbatim'] if n >= 2 else ['verbatim'], min_obligations=30, timeout=1800, mem_gb=16,
             trusted=['models of cif_value_init_char / cif_value_init / u_strncpy / u_strncmp in the harness', 'reference decoder r_decode() (harness/parser_decode_h.c), written from the CIF 2.0 text-field protocols'],
             clauses=['prefix recognised and stripped exactly as the protocol says (incl. a last line that is only the prefix)', 'folded lines joined, backslash + blanks + terminator removed',
-                     'CR / CR LF / LF inside the value read as one LF', 'no write outside the n+1 unit output buffer']),
-    ]
+                     'CR / CR LF / LF inside the value read as one LF', 'no write outside the n+1 unit output buffer']))
+    return out
 
 
 def check(tier):
-    return vlib.run_property('C01', jobs(), tier, LEVEL, UNDECIDED)
+    return vlib.run_property('C01', jobs(tier), tier, LEVEL, UNDECIDED)
